@@ -627,7 +627,19 @@ func GenProgram(t *rapid.T, prof *Profile, doc Doc) *Program {
 		s := p.Steps[rapid.IntRange(0, len(p.Steps)-1).Draw(t, "errout_src")]
 		var e *Expr
 		if s.Kind == "foreach" {
-			e = Obj(F("f", StepRef(s.ID, "failed", "error", "data")))
+			switch rapid.IntRange(0, 3).Draw(t, "loop_errout_kind") {
+			case 0:
+				e = Obj(F("f", StepRef(s.ID, "failed", "error", "data")))
+			case 1:
+				e = Obj(F("f", StepRef(s.ID, "failed", "error", "errors")))
+			case 2:
+				// one item's error message, looked up by its index (an integer-keyed map)
+				x := StepRef(s.ID, "failed", "error", "errors")
+				x.Path = append(x.Path, int64(rapid.IntRange(0, 2).Draw(t, "loop_err_index")))
+				e = Obj(F("f", x))
+			default:
+				e = Obj(F("f", StepRef(s.ID, "failed", "error")))
+			}
 		} else {
 			k := rapid.IntRange(0, 3).Draw(t, "errout_kind")
 			if !prof.StructRefs && (k == 1 || k == 2) {
